@@ -24,6 +24,30 @@ T = {
             "exhaustive crash-point (truncation) enumeration on the real decoder", "4/C06"),
     "C07": ("model_checking", "Part A: every class x k<=1 instance x 3 sink kinds x 3 source kinds with call-log invariants. Part B: explicit-state exploration of all message sequences up to depth 3/4 over an 18-letter alphabet on one stream; state = stream content; invariant = content equals the reference concatenation and decodes back in order ending exactly at the trailing bytes.", KREF,
             "explicit-state exploration of message histories on one stream + exhaustive sink/source-kind sweep", "4/C07"),
+    "C08": ("exploration", "Exhaustive sweep of all 646 payload classes and every class reachable from them: header schema per the independently restated Kafka rule applied to a pinned API table, api key / flexibility agreement, request/response lookups mutually inverse on classes and instances.",
+            "Trusted: pins/kafka-3.9.0-apis.json (derived from the baseline tree, spot-checked against the 3.9.0 protocol tables). Finite configuration space enumerated completely.",
+            "exhaustive enumeration of the finite configuration space (all payload classes)", "4/C08"),
+    "C09": ("exploration", "All 666 index entries x every applicable lookup function, index vs disk, key bijection, every near miss one step outside the valid set plus odd values, codegen's build_index on the current package, and a 2-thread cold-import exploration (thread A paused at each import stage).",
+            "Trusted: pinned API table; the cold-import harness models 'B blocks on the import lock' by a 0.3 s wait before resuming A (either outcome is a valid schedule).",
+            "exhaustive enumeration of index entries and near misses + bounded schedule exploration of cold lookups", "4/C09"),
+    "C11": ("exploration", "Each of the 66 public primitive readers/writers over exhaustive small domains (all 8/16-bit values, all varints below 2^17/2^21, all byte strings up to 2/3 bytes as varint input, all int16 error codes) and boundary lattices, against independent primitive codecs; out-of-domain writes must raise and write nothing.",
+            "Trusted: the independent primitive codecs (int.to_bytes, explicit varint loops in kverif). 'Random values beyond' in the property text is replaced by power-of-two neighbourhoods.",
+            "exhaustive enumeration of small value domains and boundary lattices per primitive", "4/C11"),
+    "C12": ("exploration", "Each primitive type over boundary lattices (powers of two +-2 up to 2^71, all of [-2^17, 2^17] for 8/16-bit types, float classes, duration/timestamp limits +-1us/1ms, wrong Python types) against an independent membership predicate; constructor identity/TypeError; nesting; writer acceptance and read-back; whole pass in two orders in separate processes.",
+            "Trusted: the independent predicates written from the type docstrings / ranges at the baseline.",
+            "exhaustive enumeration of boundary lattices per type, in two histories (orders)", "4/C12"),
+    "C13": ("exploration", "All 5094 fields of all 1629 classes against an independent type table; nullability, arrays, defaults, tags; two independent readings of the description (E1 vs kio's introspection) must agree; reader and writer derivable.",
+            "Trusted: the type table in kverif/props/config.py. Finite configuration space enumerated completely.",
+            "exhaustive enumeration of the finite configuration space (all fields)", "4/C13"),
+    "C14": ("exploration", "All 666 version modules (path vs class constants; every class defined in or reachable from the module) and all 186 families (contiguity, monotone flexibility, key constant and unique, request = response versions, pinned API table).",
+            "Trusted: pinned API table. Finite configuration space enumerated completely.",
+            "exhaustive enumeration of the finite configuration space (all modules and families)", "4/C14"),
+    "C15": ("exploration", "Static dataclass options of all 1633 classes; for every k<=1 (thorough: k<=2) instance, its decoded copy and what the decoder returns from a short-reading raw source: mutation attempts on every field, equality/hash along every deviation edge, copy/deepcopy/replace/pickle.",
+            "Trusted: Python's dataclass/pickle machinery; instances from the E4 alphabets.",
+            "bounded-exhaustive enumeration of instances x mutation/copy operations", "4/C15"),
+    "C19": ("model_checking", "Histories: every operation sequence up to depth 2/3 (+ all depth-3/4 ending in a use) over a 57-letter alphabet on a colliding class set, each rebuilt from cleared caches, plus abstract-state BFS to a fixpoint; stream failure at every call index for every class; 2-thread schedules of cold/warm creation and use at source-line granularity with preemption bound 1/2 (thorough: opcode granularity in scratch-buffer frames).",
+            KREF + " C-level code is atomic under the GIL; no free-running race detector exists for CPython.",
+            "explicit-state history BFS + exhaustive fault-position enumeration + preemption-bounded schedule DFS on real threads", "4/C19"),
     "C10": ("fault_enumeration", "For every class: all byte strings up to a small length and the complete 1-fault (thorough: critical 2-fault) neighbourhood of valid encodings are decoded on the real decoder under a step budget; outcome class, position and re-encodability judged.",
             "Trusted: KRef layout to aim faults; step budget as stand-in for 'time proportional to input'. 'Random byte strings' is replaced by exhaustive short strings and fault neighbourhoods; long random inputs are not claimed.",
             "exhaustive fault-sequence enumeration (short inputs, 1-/2-byte corruptions) on the real decoder", "4/C10"),
